@@ -362,8 +362,15 @@ pub fn run(prop: &str, tier: &str, seed: u64) -> i32 {
     std::env::set_var("VERIF_EVIDENCE_APPEND", "1");
     driver::write_evidence(prop, &ev);
     println!(
-        "{} {} engine=conc enumeration: {} grid points, {} non-trivial ({} with the peer's claim racing the cancellation / deadline), {:.1}s, exit {}",
-        prop, tier, evaluations, nontrivial, claimed, t0.elapsed().as_secs_f64(), code
+        "{} {} engine=conc enumeration: {} grid points, {} non-trivial ({} {}), {:.1}s, exit {}",
+        prop,
+        tier,
+        evaluations,
+        nontrivial,
+        claimed,
+        if prop == "C06" { "released through unpark" } else { "with the peer's claim racing the cancellation / deadline" },
+        t0.elapsed().as_secs_f64(),
+        code
     );
     code
 }
